@@ -265,7 +265,13 @@ func runCap(t *testing.T, sc Scenario) *core.Result {
 					}
 				}
 			}
-			w.Log.Add("cli", "burst", "entry=%s cap=%d writes=%d accepted_before_refusal=%d", cs.Entry, sc.Cap, n, accepted)
+			// (whether the consumer gets to run in the middle of the burst - a contended mutex hands the
+			// processor over - is the runtime's choice: the log only says what the oracle looks at)
+			if accepted >= sc.Cap {
+				w.Log.Add("cli", "burst", "entry=%s cap=%d writes=%d accepted_before_refusal>=cap", cs.Entry, sc.Cap, n)
+			} else {
+				w.Log.Add("cli", "burst", "entry=%s cap=%d writes=%d accepted_before_refusal=%d", cs.Entry, sc.Cap, n, accepted)
+			}
 			if refusedAt >= 0 {
 				if firstErr != nil && !strings.Contains(firstErr.Error(), "queue is full") {
 					// some other error (e.g. the session ended): nothing to say about capacity
@@ -279,7 +285,7 @@ func runCap(t *testing.T, sc Scenario) *core.Result {
 				}
 				w.Probe("cap_refusal_at_capacity")
 			}
-			sample = map[string]any{"mode": "cap", "entry": cs.Entry, "transport": cs.Transport, "cap": sc.Cap, "writes": n, "accepted_before_refusal": accepted}
+			sample = map[string]any{"mode": "cap", "entry": cs.Entry, "transport": cs.Transport, "cap": sc.Cap, "writes": n, "accepted_at_least_cap": accepted >= sc.Cap}
 			time.Sleep(100 * time.Millisecond)
 		})
 	})
